@@ -29,6 +29,8 @@ package pluginregistry
 //@ iface ModelPlugin.Capabilities(ctx) (resp)
 //@   modifies nothing
 //@   ensures resp != nil
+// the model list is decoded from the plugin's answer: a repeated message field holds no nil element
+//@   ensures forall m in resp.SupportedModels :: m != nil
 
 //@ iface ModelPlugin.GetInfo() (info)
 //@   pure
